@@ -22,9 +22,9 @@ connected by `RoundTrip.utf8 : List Char → List UInt8` (UTF-8 encoding of a Go
 
 All hold for `xid.Start`, `xid.Continue`, `unicode.ToLower`, `strconv.IsPrint`; `asciiOracles_ok`
 shows them for the ASCII instance used in the concrete evaluations.  `like_regex` needs in addition
-that the pattern compiles: `o.regexAccepts pat flags = true` is part of the class `RT3` / `RT4`.
+that the pattern compiles: `o.regexAccepts pat flags = true` is part of the classes `RT3` … `RT5`.
 
-## The classes (each is a `Bool`-valued function, `RT1 ⊆ RT2 ⊆ RT3 ⊆ RT4`)
+## The classes (each is a `Bool`-valued function, `RT1 ⊆ RT2 ⊆ RT3 ⊆ RT4 ⊆ RT5`)
 
 * `RT1` (stage 1) — mode `lax` or `strict`; root `$` followed by any number of accessors from:
   `.key` for **every key text without NUL** (the printer always quotes keys, so keys spelled like
@@ -47,17 +47,24 @@ that the pattern compiles: `o.regexAccepts pat flags = true` is part of the clas
   `like_regex` / `exists` and the top-level expression may be built with `+ - * / %`, unary `+ -`
   applied to anything that is not a number literal, and negative integer literals
   `-(2⁶³-1) … -1`, nested in any way.
+* `RT5 o` (stage 5, the largest class) — in addition: subscripts whose bounds are arbitrary
+  expressions of the class (`[last - 1]`, `[$."n" to last]`, `[@."i" * 2, 0]`; `last` may stand
+  wherever an operand may, `validate` confines it to subscripts), the methods `.time()`,
+  `.time_tz()`, `.timestamp()`, `.timestamp_tz()` without or with a precision `0 … 2⁶³-1`, and
+  `.decimal()`, `.decimal(p)`, `.decimal(p,s)` with signed integer literals `-(2⁶³-1) … 2⁶³-1`.
 
 Every class also demands `validate a.root` (what `ast.New` checks: `@` only inside filters, `last`
 only inside subscripts) — a tree that fails it is not accepted by `Parse` in the first place.
 
 ## Theorems
 
-* `roundtrip_accessors`, `roundtrip_filters`, `roundtrip_stage3`, `roundtrip_stage4`:
+* `roundtrip_accessors`, `roundtrip_filters`, `roundtrip_stage3`, `roundtrip_stage4`, `roundtrip_stage5`:
   `RTi a → ∃ txt, toString a = some txt ∧ parse o (utf8 txt) = .ok a`;
+* `roundtrip_of_accepted`: the same for a path `Parse` accepted (its validity then comes from
+  `parse_ok_wf`), assuming only that the shape of the tree is in the class;
 * `fixed_point`: `String` is a fixed point — printing the re-parsed tree gives the same text;
 * `mode_pred_preserved`: mode, predicate flag and tree of the re-parsed path;
-* `stage1_in_stage2`, `stage2_in_stage3`, `stage3_in_stage4`.
+* `stage1_in_stage2`, `stage2_in_stage3`, `stage3_in_stage4`, `stage4_in_stage5`, `in_stage5`.
 
 The heart of stages 2 and 4 is that the parentheses the printer derives from `priority` are
 sufficient for the parser's precedence climbing:
@@ -79,8 +86,8 @@ sufficient for the parser's precedence climbing:
   literal (`ast.NewUnaryOrNumber`), so no accepted path has this shape and its text `(-1)` reads back
   as the literal `-1` — `sign_on_literal_is_folded` below; the literal `-2⁶³` (its text is rejected:
   the magnitude is read first) likewise never comes out of `Parse`;
-* `.decimal(…)`, the `.time(…)` family, arithmetic inside subscripts: not attempted (nothing is
-  known to fail for them beyond D3/D5).
+* `.decimal(…)` with a scale but no precision (`.decimal(,2)`: the printer would write it, the
+  parser cannot produce it), negative precisions of the `.time(…)` family: not accepted paths.
 -/
 
 namespace Sqljson
@@ -143,6 +150,18 @@ theorem stage1_in_stage2 (a : AST) (h : RT1 a = true) : RT2 a = true := RT1_RT2 
 theorem stage2_in_stage3 (o : Oracles) (a : AST) (h : RT2 a = true) : RT3 o a = true := RT2_RT3 o a h
 /-- stage 3 is contained in stage 4 -/
 theorem stage3_in_stage4 (o : Oracles) (a : AST) (h : RT3 o a = true) : RT4 o a = true := RT3_RT4 o a h
+/-- stage 4 is contained in stage 5 -/
+theorem stage4_in_stage5 (o : Oracles) (a : AST) (h : RT4 o a = true) : RT5 o a = true := RT4_RT5 o a h
+
+/-- every stage is contained in the last one -/
+theorem in_stage5 (o : Oracles) (a : AST)
+    (h : RT1 a = true ∨ RT2 a = true ∨ RT3 o a = true ∨ RT4 o a = true ∨ RT5 o a = true) : RT5 o a = true := by
+  rcases h with h | h | h | h | h
+  · exact RT4_RT5 o a (RT3_RT4 o a (RT2_RT3 o a (RT1_RT2 a h)))
+  · exact RT4_RT5 o a (RT3_RT4 o a (RT2_RT3 o a h))
+  · exact RT4_RT5 o a (RT3_RT4 o a h)
+  · exact RT4_RT5 o a h
+  · exact h
 
 section
 variable (o : Oracles) (ok : OrOK o)
@@ -172,18 +191,32 @@ theorem roundtrip_stage4 (a : AST) (h : RT4 o a = true) :
   obtain ⟨txt, h1, h2⟩ := roundtrip_stage4' ok a h
   exact ⟨txt, h1, h2 _ (decodeAll_utf8 txt)⟩
 
+/-- **Stage 5**: expressions as subscripts, `.time()` family, `.decimal()`. -/
+theorem roundtrip_stage5 (a : AST) (h : RT5 o a = true) :
+    ∃ txt, Print.toString o.isPrint a = some txt ∧ parse o (utf8 txt) = .ok a := by
+  obtain ⟨txt, h1, h2⟩ := roundtrip_stage5' ok a h
+  exact ⟨txt, h1, h2 _ (decodeAll_utf8 txt)⟩
+
+/-- the same for a path that `Parse` accepted (whose validity `Parse` has checked): only the shape of
+    the tree has to be in the class -/
+theorem roundtrip_of_accepted (bytes0 : List UInt8) (a : AST) (h0 : parse o bytes0 = .ok a)
+    (hshape : (if a.pred then okPred5 o a.root else okExpr5 o a.root) = true) :
+    ∃ txt, Print.toString o.isPrint a = some txt ∧ parse o (utf8 txt) = .ok a := by
+  have hv : validate a.root = true := parse_ok_wf o bytes0 a h0
+  exact roundtrip_stage5 o ok a (by simp only [RT5, hv, hshape, Bool.and_self])
+
 /-- `String` is a fixed point: `Parse(p.String()).String() = p.String()` on the class. -/
-theorem fixed_point (a : AST) (h : RT4 o a = true) :
+theorem fixed_point (a : AST) (h : RT5 o a = true) :
     ∃ txt b, Print.toString o.isPrint a = some txt ∧ parse o (utf8 txt) = .ok b ∧
       Print.toString o.isPrint b = some txt := by
-  obtain ⟨txt, h1, h2⟩ := roundtrip_stage4 o ok a h
+  obtain ⟨txt, h1, h2⟩ := roundtrip_stage5 o ok a h
   exact ⟨txt, a, h1, h2, h1⟩
 
 /-- the mode, the predicate flag and the tree are preserved -/
-theorem mode_pred_preserved (a : AST) (h : RT4 o a = true) (txt : List Char) (b : AST)
+theorem mode_pred_preserved (a : AST) (h : RT5 o a = true) (txt : List Char) (b : AST)
     (h1 : Print.toString o.isPrint a = some txt) (h2 : parse o (utf8 txt) = .ok b) :
     b.lax = a.lax ∧ b.pred = a.pred ∧ b.root = a.root := by
-  obtain ⟨txt', h1', h2'⟩ := roundtrip_stage4 o ok a h
+  obtain ⟨txt', h1', h2'⟩ := roundtrip_stage5 o ok a h
   rw [h1] at h1'
   injection h1' with e
   subst e
@@ -318,6 +351,27 @@ def ex6 : AST :=
 example : RT4 asciiOracles ex6 = true := by decide
 example : Print.toString asciiOracles.isPrint ex6 = some "strict (1 + 2 * 3)".toList := by decide +kernel
 
+/-- subscripts with expressions, `last` arithmetic, `.time(p)`, `.decimal(p,s)`:
+    `$[last - 1,@."i" * 2 to last].timestamp_tz(3).decimal(10,-2)` inside a filter so that `@` is valid -/
+def ex7 : AST :=
+  let i (n : Int) : Node := .integer n none
+  let bin (op : BinOp) (l r : Node) : Node := .binary op (some l) (some r) none
+  let subs : List Node :=
+    [.binary .subscript (some (bin .sub (.const .last none) (i 1))) none none,
+     .binary .subscript (some (bin .mul (.const .current (some (.key "i".toList none))) (i 2)))
+       (some (.const .last none)) none]
+  let chain : Node :=
+    .arrayIndex subs (some (.unary .timestampTZ (some (i 3))
+      (some (.binary .decimal (some (i 10)) (some (i (-2))) none))))
+  ⟨.const .root (some (.unary .filter (some
+      (.unary .exists (some (.const .root (some chain))) none)) none)), true, false⟩
+
+example : RT5 asciiOracles ex7 = true := by decide
+
+example : Print.toString asciiOracles.isPrint ex7
+    = some "$?(exists ($[last - 1,@.\"i\" * 2 to last].timestamp_tz(3).decimal(10,-2)))".toList := by
+  decide +kernel
+
 /-! ## Outside the classes -/
 
 /-- D3: an integer literal with an accessor is not an operand of the class -/
@@ -334,6 +388,10 @@ theorem sign_on_literal_is_folded :
       = some "(-1)".toList ∧
     rootIs (fun n => match n with | .integer (-1) none => true | _ => false)
       (parse asciiOracles (ascii "(-1)")) = true := by
+  decide +kernel
+
+/-- the literal `-2⁶³` cannot come out of `Parse`: its text is rejected (the magnitude is read first) -/
+example : run "-9223372036854775808" = "ERR" ∧ run "-9223372036854775807" = "(-9223372036854775807)" := by
   decide +kernel
 
 end C02b
